@@ -8,7 +8,7 @@ pub fn begin_collect_arguments<T: InterpreterTrait>(interpreter: &mut T) {
 
 pub fn enqueue_to_return_stack<T: InterpreterTrait>(interpreter: &mut T, index: usize) {
     let v = interpreter.context()[index].clone();
-    interpreter.by_ref_stack().push_back(v);
+    interpreter.by_ref_stack().push_front(v);
 }
 
 pub fn dequeue_from_return_stack<T: InterpreterTrait>(interpreter: &mut T) {
